@@ -343,6 +343,86 @@ def check_invalid(case):
     raise Violation("inconsistent generator arguments were accepted (ValueError expected)", kind=kind, n=n, p=p, pos=pos)
 
 
+@st.composite
+def generated_inconsistent_cases(draw, tier):
+    """A valid argument set (the strategies of the facets above) in which ONE thing is made inconsistent: one position of
+    several, at a generated place in the list, or the number of means / variances (any count other than 1 and the right one)."""
+    fn = draw(st.sampled_from(["changing", "anomalous"]))
+    what = draw(st.sampled_from(["position", "position", "n_means", "n_variances"]))
+    where = draw(st.integers(0, 7))
+    how = draw(st.integers(0, 7))
+    delta = draw(st.integers(1, 40))
+    wrong_count = draw(st.integers(2, 9))
+    base = draw(changing_cases(tier) if fn == "changing" else anomalous_cases(tier))
+    return {"base": base, "what": what, "where": where, "how": how, "delta": delta, "wrong_count": wrong_count}
+
+
+def check_generated_inconsistent(case):
+    from skchange.datasets import generate_anomalous_data, generate_changing_data
+
+    base = case["base"]
+    n, p, fn = base["n"], base["p"], base["fn"]
+    means, variances = as_arg(base["means"]), as_arg(base["variances"])
+    if fn == "changing":
+        positions = base["changepoints"] if isinstance(base["changepoints"], list) else [base["changepoints"]]
+        positions = list(positions)
+        k = len(positions) + 1
+    else:
+        positions = [list(a) for a in base["anomalies"]]
+        k = len(positions)
+    what = case["what"]
+    label = what
+    if what == "position":
+        if fn == "changing":
+            bad = -case["delta"] if case["how"] % 2 else n - 1 + case["delta"]
+            label = "changepoint_negative" if case["how"] % 2 else "changepoint_beyond"
+            if positions:
+                positions[case["where"] % len(positions)] = bad
+            else:
+                positions = [bad]
+                k = 2
+        else:
+            kinds = ["start_negative", "end_beyond", "empty", "reversed", "three_entries", "one_entry"]
+            label = kinds[case["how"] % len(kinds)]
+            s0, e0 = (positions[case["where"] % len(positions)] if positions else (0, 1))
+            bad = {"start_negative": [-case["delta"], e0], "end_beyond": [s0, n + case["delta"]], "empty": [s0, s0],
+                   "reversed": [e0, s0], "three_entries": [s0, e0, e0], "one_entry": [s0]}[label]
+            if positions:
+                positions[case["where"] % len(positions)] = bad
+            else:
+                positions = [bad]
+                k = 1
+        # parameters stay consistent with the (possibly grown) number of segments: only the position is wrong
+        if not isinstance(means, list) or len(means) not in (1, k):
+            means = [np.zeros(p)]
+        if not isinstance(variances, list) or len(variances) not in (1, k):
+            variances = [np.ones(p)]
+    else:
+        m = case["wrong_count"]
+        if m == k:
+            m = k + 1
+        vals = [np.full(p, 1.0 + i) for i in range(m)]
+        if what == "n_means":
+            means = vals
+        else:
+            variances = vals
+        label = f"{what}:{'divides' if k % m == 0 else 'multiple' if m % max(k, 1) == 0 else 'other'}"
+    pos_arg = [tuple(a) for a in positions] if fn == "anomalous" else positions
+    if base.get("np_positions"):
+        pos_arg = [tuple(np.int64(v) for v in a) for a in positions] if fn == "anomalous" else [np.int64(v) for v in positions]
+    try:
+        with sut(f"generate_{fn}_data with one inconsistent argument ({label})", allowed=(ValueError,)):
+            if fn == "changing":
+                generate_changing_data(n, pos_arg, means, variances, base["seed"])
+            else:
+                generate_anomalous_data(n, pos_arg, means, variances, base["seed"])
+    except ValueError:
+        return {"nontrivial": True, "classes": [fn, label, f"k={min(k, 4)}", f"at={'last' if positions and case['where'] % len(positions) == len(positions) - 1 else 'other'}"]}
+    raise Violation("inconsistent generator arguments were accepted (ValueError expected)", fn=fn, label=label, n=n, p=p,
+                    positions=positions, n_means=len(means) if isinstance(means, list) else 1,
+                    n_variances=len(variances) if isinstance(variances, list) else 1)
+
+
 FACETS = [
     Facet(name="changing_data", check=check_changing, strategy=changing_cases,
           rule=("generate_changing_data: n 1..60, p 1..4, 0..5 non-decreasing changepoints incl. repeats and 0 (int or list), scalar / shared "
@@ -364,4 +444,11 @@ FACETS = [
           rule=("wrong number of means / variances, negative or too large changepoints, anomaly start < 0 or end > n, empty, "
                 "reversed or 3-element anomalies; ValueError expected; every case non-trivial"),
           n_quick=300, n_thorough=3000, shards_quick=4, shards_thorough=8),
+    Facet(name="generated_inconsistent", check=check_generated_inconsistent, strategy=generated_inconsistent_cases,
+          rule=("a valid argument set of generate_changing_data / generate_anomalous_data (the strategies of the first two facets: any number of positions, "
+                "any order, scalar / shared / per-segment parameters, Python or NumPy integer positions) in which ONE thing is made inconsistent: one "
+                "position of several at a generated place (changepoint negative or beyond n - 1; anomaly start < 0, end > n, empty, reversed, with three "
+                "entries or one), or the number of means / variances (any count in 2..9 other than the right one, dividing it or not); ValueError "
+                "expected; every case non-trivial"),
+          n_quick=400, n_thorough=4000, shards_quick=4, shards_thorough=8),
 ]
